@@ -73,6 +73,23 @@ def call_two(par: dict, sw: float):
         return "error", f"{type(ex).__name__}: {ex}"
 
 
+def call_two_after_edit(par: dict, sw: float):
+    """The helper called again after the caller edited the first table in place (per cent, reordered rows), with an equal but
+    distinct parameter object: a table handed out belongs to the caller, the next one is a table of its own."""
+    from bluebonnet.flow.flowproperties import relative_permeabilities_twophase  # noqa: PLC0415
+
+    try:
+        with warnings.catch_warnings():
+            warnings.simplefilter("ignore")
+            first = relative_permeabilities_twophase(make_params(par["n"], par["sr"], par["km"]), sw)
+            for col in list(first.columns):
+                first[col] = first[col] * 100.0
+            first.sort_values(list(first.columns)[0], ascending=False, inplace=True)
+    except Exception:  # noqa: BLE001  the first call is judged elsewhere
+        pass
+    return call_two(par, sw)
+
+
 # ---- projection to RelPermTrace events -----------------------------------------------------------------------
 def ev_par(par: dict) -> dict:
     return {"ev": "Par",
